@@ -283,6 +283,13 @@ class DecFileParser:
                 (self._additional_decay_models, models)
             )
 
+        # The grammar may have been loaded already (e.g. via ``grammar()``): make sure it learns about the new models
+        if self.grammar_loaded and self._grammar_info is not None:
+            self._additional_decay_models = tuple(self._additional_decay_models)
+            self._grammar_info["edit_terminals"] = (
+                self._generate_edit_terminals_callback()
+            )
+
     def _load_grammar(
         self,
         filename: str = "decfile.lark",
